@@ -167,6 +167,9 @@ def coalescent(spec, **over):
         if route == 'kwarg':          # rate given to the Coalescent next to a LocusConfig carrying the linkage
             kw['loci'] = pg.LocusConfig(n=loci, n_unlinked=spec.get('n_unlinked', 0))
             kw['recombination_rate'] = rr
+        elif route == 'kwarg_over':   # the LocusConfig carries ANOTHER (non-zero) rate; the keyword of the Coalescent overrides it
+            kw['loci'] = pg.LocusConfig(n=loci, n_unlinked=spec.get('n_unlinked', 0), recombination_rate=spec.get('rec_cfg', 2.0))
+            kw['recombination_rate'] = rr
         elif route == 'int' and not spec.get('n_unlinked'):      # loci=2, recombination_rate=r
             kw['loci'] = loci
             kw['recombination_rate'] = rr
